@@ -12,7 +12,7 @@ import re
 
 from ..engine import rule
 from ..model import Undecided
-from ..cfg import dotted, call_name, is_call, simple_name, unparse, const_value, contains, enclosing, find_all
+from ..cfg import implied, dotted, call_name, is_call, simple_name, unparse, const_value, contains, enclosing, find_all
 from ..flow import Defs, depends, expand, Prov, scoped_defs
 from ..decide import table, ret_kind
 from ..pathflow import PathFlow, effect_args, safe, BUILDERS
@@ -547,3 +547,52 @@ def c09f(ctx):
     defs = Defs(h.node)
     ok = all(is_call(v, 'req.pop_path') for v, sel in defs.of('app_name')) and bool(defs.of('app_name'))
     ctx.check(ok, 'MultiMapProxy.handle:one-segment', 'the app name is exactly one path segment (pop_path)', h)
+
+
+@rule('C09.g', floor=1)
+def c09g(ctx):
+    """links between tiles stay inside the cache directory wherever it is mounted: a single-colour tile symlink is created with a
+    target *relative* to the link (os.path.relpath(target, dirname(link))), never with the absolute path of the moment"""
+    import itertools
+    from ..flow import Canon
+    from ..util import call_targets
+    fn = ctx.fn('mapproxy/cache/file.py:FileCache._store_single_color_tile')
+    g = fn.cfg
+    defs = Defs(fn.node)
+    sites = [(n, x) for n, x in g.find(lambda x: isinstance(x, ast.Call)) if any(t.endswith('symlink') for t in call_targets(x, defs))]
+    if not sites:
+        ctx.ok('FileCache._store_single_color_tile:no-symlink', 'no symbolic links are created', fn)
+        return
+    flags = sorted({at.text for s, d, test, pol in g.branch_edges() for at, p in implied(test, pol) if 'link_single_color_images' in at.text})
+    for n, x in sites:
+        ok, seen = True, 0
+        for vals in itertools.product([True, False], repeat=len(flags)):
+            cf = Canon(fn, assume=dict(zip(flags, vals)))
+            if n in cf.infeasible:
+                continue
+            callee = unparse(cf.expr(x.func))
+            if not callee.endswith('symlink'):
+                continue
+            seen += 1
+            tgt = cf.expr(x.args[0]) if x.args else None
+            rel = is_call(tgt, 'os.path.relpath', 'relpath') and len(tgt.args) == 2 and is_call(tgt.args[1], 'os.path.dirname', 'dirname') and \
+                len(x.args) > 1 and unparse(cf.expr(tgt.args[1].args[0])) == unparse(cf.expr(x.args[1]))
+            ok = ok and rel
+        ctx.check(ok and seen > 0, 'FileCache._store_single_color_tile:symlink-target-relative',
+                  'os.symlink(relpath(<shared file>, dirname(<link>)), <link>): the link resolves inside the cache directory after a move or copy', fn, x,
+                  fail='the symbolic link is created with an absolute target: after the cache directory is copied or mounted elsewhere '
+                       'tile reads follow the link to the old location, outside the configured cache directory')
+
+
+@rule('C09.h', floor=2)
+def c09h(ctx):
+    """the temporary file of an atomic store lives next to its final location (inside the cache directory), not in the system temp
+    directory (shared rule C06.b: temp path = final path + suffix, created exclusively there)"""
+    from ..engine import run_property
+    sub = run_property(ctx.repo, 'C06', ctx.tier, only={'C06.b'})
+    for er in sub.errors:
+        raise Undecided('shared rule %s: %s' % er)
+    for o in sub.obs:
+        if o.construct.split(':')[-1] in ('temp-name', 'excl-create', 'rename-direction', 'rename'):
+            (ctx.ok if o.status == 'ok' else ctx.bad)('%s:%s' % (o.rule, o.construct), o.msg, o.where)
+    ctx.stats['functions'] |= sub.stats['functions']
